@@ -116,6 +116,7 @@ class MonitoredStore(QueueStorage):
         r = self._call('set_timestamp', id, self.inner.set_timestamp, id, timestamp)
         self.qw.ev('store', 'set_timestamp', self.qw.sid(id), round(timestamp - self.qw.t0, 6))
         self.qw.due[self.qw.sid(id)] = timestamp
+        self.qw.stored_ts[self.qw.sid(id)] = timestamp
         self.qw.flushed.discard(self.qw.sid(id))
         return r
 
@@ -193,6 +194,7 @@ class QueueWorld(object):
         self.harness_wait = cfg.get('harness_wait', False)
         self.waiters = []
         self.transit = {}
+        self.stored_ts = {}
         self.index_model_differs = False
         self.flushed = set()           # ids flushed since their last set_timestamp
         self.last_incr = {}
@@ -228,6 +230,7 @@ class QueueWorld(object):
         self.total_messages += 1
         self.known.add(qid)
         self.due[qid] = timestamp
+        self.stored_ts[qid] = timestamp
         self.ledger[qid] = dict(sender=envelope.sender, original=list(envelope.recipients),
                                 outstanding=list(envelope.recipients), delivered=[], failed={},
                                 bounce=isinstance(envelope, Bounce), removed=False, attempts=0,
@@ -583,6 +586,13 @@ class QueueWorld(object):
         def backoff(envelope, attempts):
             wait = fn(envelope, attempts)
             self.ev('backoff', tuple(envelope.recipients), attempts, wait)
+            if wait is not None:
+                # the policy has chosen the next attempt time: from now on an attempt before it is early,
+                # whether or not the new timestamp has reached storage yet
+                qid = self.last_incr.get(gevent.getcurrent())
+                if qid is not None:
+                    self.due[qid] = self.world.loop._now + wait
+                    self.flushed.discard(qid)
             if wait is None:
                 # Queue._retry_later calls increment_attempts(id) and then backoff() in the same greenlet
                 qid = self.last_incr.get(gevent.getcurrent())
@@ -651,7 +661,8 @@ class QueueWorld(object):
             return
         qid = ids[which % len(ids)]
         w = self.waiters.pop(0)
-        w.set([(self.due.get(qid, self.t0), qid)])
+        # an announcement carries the timestamp the storage currently holds (not one still being written)
+        w.set([(self.stored_ts.get(qid, self.t0), qid)])
 
     def make_bounce_factory(self, kind):
         qw = self
